@@ -20,6 +20,8 @@ var registry = map[string]func() core.Engine{
 	"C16": func() core.Engine { return &C16{} },
 	"C17": func() core.Engine { return &C17{} },
 	"C18": func() core.Engine { return &C18{} },
+	"C19": func() core.Engine { return &C19{} },
+	"C20": func() core.Engine { return &C20{} },
 }
 
 // Lookup returns a fresh engine for the property id, or nil.
